@@ -45,12 +45,18 @@ ASSUMPTIONS = [
 BOUNDS = {
     'quick': '(S) 2-3 qubits, coupling graphs with 1-2 edges, max_layer 1-2 (<=7 evaluated candidates), success '
              'threshold 10, costs unbounded integers; (L) every graph on 2-4 vertices, radix 2 and 3, 5 generators',
-    'thorough': '(S) adds the triangle (13 candidates) and max_layer 3 on the 1-edge graph',
+    'thorough': '(S) adds the triangle (13 candidates) and max_layer 3 on the 1-edge graph and the line; runs that evaluate '
+                'more than 15 candidates (LEAP after a leap re-expands the prefix) are outside the bound',
 }
 OUTSIDE = ('whether the optimiser actually reaches the target (numerical half of C03); compile() end to end on unitary / '
            'state inputs; PermutationAwareSynthesis; A* heuristic; partial-solution storage; seeds')
 
 THRESHOLD = 10
+
+
+class _OutOfBound(BaseException):
+    """The run evaluates more candidates than the obligation has symbolic costs for: the path lies outside the stated
+    bound (LEAP re-adds the prefix circuit to the frontier after a leap, so a leaping run may evaluate a node twice)."""
 
 
 class Cost:
@@ -148,7 +154,7 @@ def _search_body(c0: int, c1: int, c2: int, c3: int, c4: int, c5: int, c6: int, 
                 raise AssertionError('cost measured on a circuit that was not instantiated for this target')
             evals.append(circuit)
             if len(evals) > len(costs):
-                raise AssertionError('more evaluations than the bound provides costs for')
+                raise _OutOfBound()
             return Cost(len(evals) - 1)
 
     class NativeGen(SimpleLayerGenerator):
@@ -198,6 +204,8 @@ def _search_body(c0: int, c1: int, c2: int, c3: int, c4: int, c5: int, c6: int, 
                 raise AssertionError('synthesize suspended on the inline runtime')
             except StopIteration as s:
                 res = s.value
+        except _OutOfBound:
+            return True        # outside the bound (more than 15 evaluated candidates); not counted as reached
         except Exception as ex:
             rt.reach()
             if rt.CONCRETE:
